@@ -49,7 +49,7 @@ def post_explore(ctx, res, pids, opts):
     counts = {"eightway_transitions": 0, "nontrivial": 0, "gen_steps": 0, "history_runs": 0, "seeded_runs": 0,
               "inexpressible_actions": 0, "skipped_large": 0}
     keys = list(res["seen"].keys())
-    if opts.get("max_states_modes") and len(keys) > opts["max_states_modes"]:
+    if (opts.get("max_states_modes") and len(keys) > opts["max_states_modes"]) or res.get("capped"):
         counts["skipped_large"] += 1
         return counts
     envs = [(m, NASimEnv(ctx.scenario, fully_obs=m[0], flat_actions=m[1], flat_obs=m[2])) for m in MODES]
@@ -179,6 +179,7 @@ def run(pid, tier):
     else:
         opts["history_budget"] = 600
         opts["seeded_budget"] = 150
+        opts["max_states_modes"] = 4000
     agg, violations, errors = run_family(["C12"], tier, opts)
     if errors:
         raise HarnessError("; ".join(errors[:3]))
